@@ -1,5 +1,6 @@
 from __future__ import annotations
 
+import codecs
 import logging
 import pathlib
 import sys
@@ -132,7 +133,7 @@ class SourceFile:
     def __init__(self, filename: pathlib.Path):
         self.replacements: list[Replacement] = []
         self.filename = filename
-        self.source = self.filename.read_text("utf-8")
+        self.source = self.filename.read_text("utf-8-sig")
 
     def rewrite(self, new_code=None):
         if new_code is None:
@@ -144,8 +145,12 @@ class SourceFile:
         if b"\r\n" in original and b"\n" not in original.replace(b"\r\n", b""):
             new_code = new_code.replace("\r\n", "\n").replace("\n", "\r\n")
 
+        data = new_code.encode()
+        if original.startswith(codecs.BOM_UTF8):
+            data = codecs.BOM_UTF8 + data
+
         with open(self.filename, "bw") as code:
-            code.write(new_code.encode())
+            code.write(data)
 
     def virtual_write(self):
         self.source = self.new_code()
@@ -168,7 +173,8 @@ class SourceFile:
 
         self._check()
 
-        code = self.filename.read_text("utf-8")
+        # utf-8-sig: a byte order mark is no part of the code
+        code = self.filename.read_text("utf-8-sig")
 
         format_whole_file = enforce_formatting() or code == format_code(
             code, self.filename
